@@ -159,8 +159,19 @@ def _parse_ops(ops):
         w = op.split()
         if w[0] == "new":
             ks = _parse_ints(w[5])
+            src = None
+            if "/" in w[3]:
+                # AtomArray input: explicit `box` argument / the array's own box / periodic flag (p|n).
+                # Documented precedence: the `box` parameter overrides the AtomArray's box.
+                e_tok, o_tok, p_tok = w[3].split("/")
+                expl = None if e_tok == "-" else _parse_ints(e_tok)
+                own = None if o_tok == "-" else _parse_ints(o_tok)
+                src = {"expl": expl, "own": own, "periodic": p_tok == "p"}
+                eff = (expl if expl is not None else own) if p_tok == "p" else None
+            else:
+                eff = None if w[3] == "-" else _parse_ints(w[3])
             spec = {"S": int(w[1]), "cs": int(w[2]),
-                    "box": None if w[3] == "-" else _parse_ints(w[3]),
+                    "box": eff, "src": src,
                     "sel": None if w[4] == "-" else ([] if w[4] == "_" else [ch == "1" for ch in w[4]]),
                     "coords": [ks[i:i + 3] for i in range(0, len(ks), 3)]}
         elif w[0] in ("atoms", "cells"):
@@ -176,27 +187,50 @@ def _parse_ops(ops):
 _LAST = {}
 
 
+def _box_matrix(np, b, sc):
+    if b is None:
+        return None
+    if len(b) == 9:     # full matrix, row = box vector
+        return (np.array(b, dtype=np.float64).reshape(3, 3) * sc).astype(np.float32)
+    return np.diag(np.array(b, dtype=np.float64) * sc).astype(np.float32)
+
+
 def _build(np, spec, exact):
-    """Construct the real CellList from a spec. exact: ints/2^S ; else floats."""
-    from biotite.structure import CellList
-    if exact:
-        sc = 2.0 ** (-spec["S"])
-        coords = np.array(spec["coords"], dtype=np.float64).reshape(-1, 3) * sc
-        cs = spec["cs"] * sc
-        if spec["box"] is None:
-            box = None
-        elif len(spec["box"]) == 9:     # full matrix (signed permutation of an orthorhombic box), row = box vector
-            box = (np.array(spec["box"], dtype=np.float64).reshape(3, 3) * sc).astype(np.float32)
-        else:
-            box = np.diag(np.array(spec["box"], dtype=np.float64) * sc).astype(np.float32)
-    else:
-        coords = np.array(spec["coords"], dtype=np.float64).reshape(-1, 3)
-        cs = spec["cs"]
-        box = None if spec["box"] is None else np.array(spec["box"], dtype=np.float32)
-    coords = coords.astype(np.float32)
+    """Construct the real CellList from a spec. exact: ints/2^S ; else floats.
+
+    spec["box"] is the box that must be in effect by the documentation; spec["src"] (exact) or
+    spec["own_box"/"box_pass"] (float) say how the boxes are handed over (ndarray vs AtomArray carrying its own box)."""
+    from biotite.structure import AtomArray, CellList
     sel = None if spec["sel"] is None else np.array(spec["sel"], dtype=bool)
     _LAST["sel"] = sel
-    return CellList(coords, cs, periodic=box is not None, box=box, selection=sel), coords, box
+    if exact:
+        sc = 2.0 ** (-spec["S"])
+        coords = (np.array(spec["coords"], dtype=np.float64).reshape(-1, 3) * sc).astype(np.float32)
+        cs = spec["cs"] * sc
+        box = _box_matrix(np, spec["box"], sc)
+        src = spec.get("src")
+        if src is None:
+            return CellList(coords, cs, periodic=box is not None, box=box, selection=sel), coords, box
+        atoms = AtomArray(len(coords))
+        atoms.coord = coords
+        own = _box_matrix(np, src["own"], sc)
+        if own is not None:
+            atoms.box = own
+        return (CellList(atoms, cs, periodic=src["periodic"], box=_box_matrix(np, src["expl"], sc), selection=sel),
+                coords, box)
+    coords = np.array(spec["coords"], dtype=np.float64).reshape(-1, 3).astype(np.float32)
+    cs = spec["cs"]
+    box = None if spec["box"] is None else np.array(spec["box"], dtype=np.float32)
+    if not spec.get("as_atoms"):
+        return CellList(coords, cs, periodic=box is not None, box=box, selection=sel), coords, box
+    atoms = AtomArray(len(coords))
+    atoms.coord = coords
+    if spec.get("box_pass") == "own":          # only the AtomArray carries the box
+        atoms.box = box
+        return CellList(atoms, cs, periodic=box is not None, selection=sel), coords, box
+    if spec.get("own_box") is not None:        # the AtomArray carries a *different* box; the explicit one must win
+        atoms.box = np.array(spec["own_box"], dtype=np.float32)
+    return CellList(atoms, cs, periodic=box is not None, box=box, selection=sel), coords, box
 
 
 def _rows_from_idx(np, arr, single, n, periodic):
@@ -306,6 +340,22 @@ def _query(np, cl, q, n, periodic, exact, S=0, wide=False, issues=None):
 
 # ---------------------------------------------------------------- implementation adapter
 def run_impl(case):
+    """Every real call runs in a forked child: a wrong index inside celllist (unchecked C indexing) must not kill the check."""
+    from common.sandbox import run_forked
+    _warm()
+    _prefetch("impl")
+    hit = _CACHE["impl"].get(_sig(case))
+    if hit is not None:
+        return hit
+    r = run_forked(_run_impl_inner, case, timeout=120)
+    if r[0] == "ok":
+        return r[1]
+    if r[0] == "err":
+        return ["UNCAUGHT:" + r[1]] * len(case["ops"])
+    return ["CRASH" if r[0] == "crash" else "TIMEOUT"] * len(case["ops"])
+
+
+def _run_impl_inner(case):
     import numpy as np
     out = []
     cl = None
@@ -694,20 +744,69 @@ def _limit_memory():
         pass
 
 
+def _warm():
+    """Import the heavy modules in the parent so that the forked children do not import them again."""
+    if not _LAST.get("warm"):
+        import numpy  # noqa: F401
+        import numpy.linalg  # noqa: F401
+        import biotite.structure  # noqa: F401
+        import biotite.structure.box  # noqa: F401
+        import biotite.structure as struc
+        try:    # first-use initialisation (LAPACK, Cython module state) once in the parent instead of in every child
+            c = numpy.array([[0, 0, 0], [1, 1, 1]], dtype=numpy.float32)
+            b = numpy.diag([4.0, 4.0, 4.0]).astype(numpy.float32)
+            cl = struc.CellList(c, 2.0, periodic=True, box=b)
+            cl.get_atoms(c, 1.0, as_mask=True)
+            cl.create_adjacency_matrix(1.0)
+            struc.index_distance(c, numpy.array([[0, 1]]), periodic=True, box=b)
+            numpy.linalg.inv(b.astype(numpy.float64))
+        except Exception:
+            pass
+        _LAST["warm"] = True
+
+
+def _died_in(case):
+    """Which op kills the process? Re-run construction + one query at a time, each in its own child."""
+    from common.sandbox import run_forked
+    if "ops" in case and case.get("spec") is None:
+        new = case["ops"][0]
+        if run_forked(_run_impl_inner, {"ops": [new]}, timeout=60)[0] in ("crash", "timeout"):
+            return "new"
+        for op in case["ops"][1:]:
+            if run_forked(_run_impl_inner, {"ops": [new, op]}, timeout=60)[0] in ("crash", "timeout"):
+                w = op.split()
+                return w[0] + ("/" + w[1] if w[0] != "adj" else "")
+        return "case"
+    sp = case["spec"]
+    for q in sp["queries"]:
+        one = dict(case, spec=dict(sp, queries=[q]))
+        if run_forked(_oracle_body, one, timeout=60)[0] in ("crash", "timeout"):
+            return q["op"] + ("/" + q.get("mode", "") if q["op"] != "adj" else "")
+    return "new" if not sp["queries"] else "case"
+
+
 def oracle(case):
+    """Runs in a forked child; a dead child is a violation with this case as the failing input."""
+    from common.sandbox import run_forked
     _limit_memory()
-    if case.get("fork"):
-        from common.sandbox import run_forked
-        r = run_forked(_oracle_body, case, timeout=120)
-        if r[0] == "ok":
-            return r[1]
-        if r[0] == "crash":
-            return [(case.get("crash_key", "C14/crash"), f"process died with signal {r[1]}")]
-        return [("C14/oracle-" + r[0], str(r[1:]))]
-    return _oracle_body(case)
+    _warm()
+    _prefetch("oracle")
+    hit = _CACHE["oracle"].get(_sig(case))
+    if hit is not None:
+        return hit
+    r = run_forked(_oracle_body, case, timeout=120)
+    if r[0] == "ok":
+        return r[1]
+    if r[0] == "err":
+        raise RuntimeError(f"oracle raised {r[1]}: {r[2]}")
+    if case.get("crash_key"):
+        return [(case["crash_key"], f"process {'died with signal ' + str(r[1]) if r[0] == 'crash' else 'timed out'}")]
+    where = _died_in(case)
+    what = f"died with signal {r[1]}" if r[0] == "crash" else "did not return within 120 s"
+    return [(f"C14/{where}/process-died", f"the Python process {what} while executing {where} of this case "
+             f"(unchecked indexing in celllist.pyx reached with an invalid index?)")]
 
 
-# ---------------------------------------------------------------- generator: exact stream
 def _grid_stats(coords, sel, cs, box):
     """Exact cell assignment (ints): dims product and max cell occupancy (incl. periodic copies).
     box: None | 3 axis lengths | 9 ints (full matrix, rows = box vectors)."""
@@ -814,6 +913,20 @@ def _exact_case(rng, periodic=False):
             break
         cs *= 2
     box_tok = "-" if box is None else _ints(box)
+    # AtomArray input: the structure may carry a box of its own next to (or instead of) the explicit `box` argument
+    ar = rng.random()
+    other = _ints([2 ** rng.randint(2, 8) for _ in range(3)]) if rng.random() < 0.7 else \
+        _ints([2 ** rng.randint(2, 5), 0, 0, rng.randint(-3, 3), 2 ** rng.randint(2, 5), 0, 0, rng.randint(-3, 3), 2 ** rng.randint(2, 5)])
+    if box is not None and ar < 0.45:
+        v = rng.random()
+        if v < 0.55:
+            box_tok = f"{box_tok}/{other}/p"       # explicit box must win over the AtomArray's own (different) box
+        elif v < 0.85:
+            box_tok = f"-/{box_tok}/p"             # only the AtomArray carries the box
+        else:
+            box_tok = f"{box_tok}/-/p"
+    elif box is None and ar < 0.12:
+        box_tok = rng.choice([f"-/{other}/n", f"{other}/{other}/n", f"{other}/-/n", "-/-/n"])   # periodic=False: boxes ignored
     ops = [f"new {S} {cs} {box_tok} {'-' if sel is None else ''.join('1' if s else '0' for s in sel)} "
            f"{_ints(x for c in coords for x in c)}"]
     ext = max(mx[a] - mn[a] for a in range(3))
@@ -882,7 +995,7 @@ def _malformed_exact(rng):
 
 
 def _malformed_exact0(rng):
-    t = rng.choice(["empty", "cs0", "csneg", "sel-len", "sel-none", "neg-radius", "radii-len", "neg-radii", "multi-rad-single",
+    t = rng.choice(["empty", "cs0", "csneg", "sel-len", "sel-none", "no-box", "no-box-sel", "neg-radius", "radii-len", "neg-radii", "multi-rad-single",
                     "empty-query", "neg-thr", "neg-cellrad"])
     coords = [[rng.randint(-20, 20) for _ in range(3)] for _ in range(rng.randint(1, 5))]
     flat = _ints(x for c in coords for x in c)
@@ -890,6 +1003,10 @@ def _malformed_exact0(rng):
     q = _ints(coords[0])
     if t == "empty":
         return {"kind": "malformed", "ops": ["new 0 4 - - _"]}
+    if t == "no-box":        # periodic=True, AtomArray without box, no box argument
+        return {"kind": "malformed", "ops": [f"new 0 4 -/-/p - {flat}"]}
+    if t == "no-box-sel":    # the selection check (IndexError) comes first
+        return {"kind": "malformed", "ops": [f"new 0 4 -/-/p {'1' * (n + 1)} {flat}"]}
     if t == "cs0":
         return {"kind": "malformed", "ops": [f"new 0 0 - - {flat}"]}
     if t == "csneg":
@@ -930,6 +1047,21 @@ def _overflow_case(rng):
 
 
 # ---------------------------------------------------------------- generator: float stream
+def _atoms_variant(rng, spec):
+    """Hand the periodic box over through an AtomArray: as its own box only, or next to a *different* own box
+    (the explicit argument must win), instead of plain coordinates + box argument."""
+    if spec["box"] is None or rng.random() >= 0.4:
+        return spec
+    spec["as_atoms"] = True
+    if rng.random() < 0.6:
+        f = rng.choice([0.37, 2.5, 6.0])
+        spec["own_box"] = [[f * spec["box"][0][0] + 1.0, 0.0, 0.0], [0.0, f * abs(spec["box"][1][1]) + 2.0, 0.0],
+                           [0.0, 0.0, f * abs(spec["box"][2][2]) + 3.0]]
+    else:
+        spec["box_pass"] = "own"
+    return spec
+
+
 def _f32(x):
     import numpy as np
     return float(np.float32(x))
@@ -1053,9 +1185,9 @@ def _float_case(rng):
                 queries.append({"op": "cells", "mode": rng.choice(["idx", "mask"]), "shape": shape, "q": pts, "rad_kind": "s", "rad": c})
     return {"kind": "float-" + ("triclinic" if periodic and abs(float(box[1][0])) + abs(float(box[2][0])) + abs(float(box[2][1])) > 0
                                 else "ortho" if periodic else "plain"),
-            "spec": {"coords": [[float(x) for x in c] for c in coords], "cs": cs,
-                     "box": None if box is None else [[float(x) for x in row] for row in box],
-                     "sel": sel, "queries": queries}}
+            "spec": _atoms_variant(rng, {"coords": [[float(x) for x in c] for c in coords], "cs": cs,
+                                         "box": None if box is None else [[float(x) for x in row] for row in box],
+                                         "sel": sel, "queries": queries})}
 
 
 def _rotation(np, nrng):
@@ -1112,11 +1244,56 @@ def _float_geom_case(rng):
                 queries.append({"op": "atoms", "mode": rng.choice(["idx", "mask"]), "shape": "m", "q": [[float(x) for x in p] for p in pts],
                                 "rad_kind": "s", "rad": r})
     return {"kind": "float-geom-" + kind,
-            "spec": {"coords": [[float(x) for x in c] for c in coords], "cs": cs, "box": [[float(x) for x in row] for row in box],
-                     "sel": sel, "queries": queries, "geom": True}}
+            "spec": _atoms_variant(rng, {"coords": [[float(x) for x in c] for c in coords], "cs": cs,
+                                         "box": [[float(x) for x in row] for row in box],
+                                         "sel": sel, "queries": queries, "geom": True})}
+
+
+_GEN = []          # cases handed to the runner by cases()/search(); lets run_impl/oracle pre-compute them in few forks
+_CACHE = {"impl": {}, "oracle": {}, "done": set()}
 
 
 def cases(rng, tier):
+    for c in _cases(rng, tier):
+        _GEN.append(c)
+        yield c
+
+
+def _sig(case):
+    return signature(case) + "|" + str(case.get("kind"))
+
+
+def _batch_child(args):
+    which, chunk = args
+    fn = _run_impl_inner if which == "impl" else _oracle_body
+    out = []
+    for c in chunk:
+        try:
+            out.append(("ok", fn(c)))
+        except BaseException as e:  # noqa: BLE001
+            out.append(("exc", type(e).__name__))
+    return out
+
+
+def _prefetch(which):
+    """Run all generated cases in children of 48 cases each (a fork per case costs ~5 ms of page-table copying).
+    A chunk whose child dies or raises is simply not cached: those cases fall back to one child per case, which also
+    attributes a crash to the exact case."""
+    if which in _CACHE["done"]:
+        return
+    _CACHE["done"].add(which)
+    from common.sandbox import run_forked
+    todo = [c for c in _GEN if (which == "oracle" or c.get("ops")) and not c.get("fork")]
+    for i in range(0, len(todo), 48):
+        chunk = todo[i:i + 48]
+        r = run_forked(_batch_child, (which, chunk), timeout=300)
+        if r[0] == "ok":
+            for c, (st, val) in zip(chunk, r[1]):
+                if st == "ok":
+                    _CACHE[which][_sig(c)] = val
+
+
+def _cases(rng, tier):
     n_exact, n_float = (800, 800) if tier == "quick" else (12000, 12000)
     for i in range(n_exact):
         t = rng.random()
@@ -1153,6 +1330,10 @@ def corpus():
         # general box matrices: mirrored + permuted orthorhombic box (Props example), triclinic within the half-height hypothesis
         {"kind": "exact-periodic", "ops": ["new 0 2 0,8,0,-4,0,0,0,0,16 - 0,0,0,3,7,0", "atoms idx s 0,0,0 s:2", "adj 2", "cells idx s 1,1,1 s:1"]},
         {"kind": "exact-periodic", "ops": ["new 0 2 4,0,0,2,4,0,1,-2,4 - 0,0,0,3,3,3,5,-1,2,-6,2,9", "atoms mask m 0,0,0,7,7,7 s:1", "adj 1"]},
+        # AtomArray carrying its own (bigger) box next to the explicit box argument: the argument wins
+        {"kind": "exact-periodic", "ops": ["new 0 2 8,8,8/64,64,64/p - 0,0,0,7,0,0,4,4,4", "atoms idx m 0,0,0,16,8,-8 s:1", "adj 1"]},
+        {"kind": "exact-periodic", "ops": ["new 0 2 -/8,8,8/p - 0,0,0,7,0,0,4,4,4", "atoms mask s 0,0,0 s:1", "adj 1"]},
+        {"kind": "exact", "ops": ["new 0 2 8,8,8/4,4,4/n - 0,0,0,7,0,0,4,4,4", "atoms idx s 0,0,0 s:1"]},
         # selection: unselected atoms never returned, adjacency rows of unselected atoms empty
         {"kind": "exact", "ops": ["new 0 2 - 1010 0,0,0,1,0,0,2,0,0,3,0,0", "atoms idx s 1,0,0 s:5", "adj 2"]},
     ]
@@ -1201,6 +1382,14 @@ def distribution(cases, impl_outs):
 
 def search(rng, problems, tier):
     """Failing-input search: both streams again from a different seed stream, plus border-heavy exact cases."""
+    _CACHE["done"].discard("oracle")
+    del _GEN[:]
+    for c in _search(rng, problems, tier):
+        _GEN.append(c)
+        yield c
+
+
+def _search(rng, problems, tier):
     for _ in range(600 if tier == "quick" else 4000):
         yield _exact_case(rng, periodic=rng.random() < 0.3)
     for _ in range(300 if tier == "quick" else 2000):
